@@ -700,3 +700,116 @@ def c19(pid, tier, replay):
 
 
 REGISTRY["C19"] = c19
+
+
+# ---------------------------------------------------------------------------------------------
+# LED feedback and life cycle (C17, C16): the real LED goroutine against a fake OpenRGB server
+
+LED_COLORS = {"white": [200, 200, 200], "black": [20, 20, 90], "c": [0, 200, 0], "unavailable": [60, 0, 60], "other": [1, 2, 3],
+              "active": [250, 250, 0], "active_external": [0, 250, 250]}
+LED_LAYOUTS = [
+    ["KEY_ESC", "KEY_F1", "KEY_F2", "KEY_F5", "KEY_F6", "KEY_F11", "KEY_F12", "KEY_A", "KEY_S", "KEY_D", "KEY_Z", "other:Logo"],
+    ["other:Logo", "KEY_Z", "KEY_D", "KEY_S", "KEY_A", "KEY_F12", "KEY_F11", "KEY_F6", "KEY_F5", "KEY_F2", "KEY_F1", "KEY_ESC"],
+    ["KEY_F1", "KEY_D", "other:Logo", "KEY_A", "KEY_F2", "KEY_F5", "KEY_F11", "KEY_S"],   # action key at index 0, some without LED
+]
+
+_unshare_ok = None
+
+
+def run_led(scr, batches, tag="led", race=False, extra_env=None):
+    """Run `verifh led` inside a mount namespace whose /sys/class/hidraw maps hidraw7 -> event3."""
+    global _unshare_ok
+    h = scr.build(race=race)
+    sysdir = scr.fresh("sys")
+    os.makedirs(os.path.join(sysdir, "hidraw7/device/input/input5/event3"))
+    bpath = scr.fresh(tag + "-batches") + ".json"
+    tpath = scr.fresh(tag + "-trace") + ".ndjson"
+    for b in batches:
+        b.setdefault("event", "event3")
+        b.setdefault("hidraw", "hidraw7")
+    with open(bpath, "w") as f:
+        json.dump(batches, f)
+    env = dict(os.environ)
+    if extra_env:
+        env.update(extra_env)
+    cmd = ["unshare", "-m", "--", "sh", "-c",
+           'mount --bind "$1" /sys/class/hidraw && shift && exec "$@"', "sh", sysdir, h, "led", bpath, tpath]
+    r = subprocess.run(cmd, stdout=subprocess.PIPE, stderr=subprocess.PIPE, text=True, timeout=3000, env=env)
+    if r.returncode != 0 and ("unshare" in r.stderr or "mount" in r.stderr or "Operation not permitted" in r.stderr):
+        raise Infra("cannot provide /sys/class/hidraw through a mount namespace in this sandbox: " + r.stderr[-500:])
+    if r.returncode != 0 and not (race and r.returncode == 66):
+        raise Infra("LED harness failed: " + r.stderr[-3000:])
+    return tpath, r.stderr
+
+
+def led_jobs(scr, out, tier):
+    consts = {"OctB": 1, "ChanB": 0 if tier == "quick" else 1, "MaxHeld": 1 if tier == "quick" else 2}
+    def cfgtext(view, dump, invs):
+        lines = ["CONSTANTS"] + ["  %s = %s" % (k, vlib.tla_value(v)) for k, v in consts.items()]
+        lines += ["  DumpEdges = %s" % ("TRUE" if dump else "FALSE"), "INIT Init", "NEXT Next", "CHECK_DEADLOCK FALSE", "ACTION_CONSTRAINT Dump"]
+        if invs:
+            lines += ["INVARIANTS NoViolation CntConsistent TrackedAreHeld", "PROPERTY ExtOnlyByMidiOrPanic"]
+        lines.append("VIEW " + view)
+        return "\n".join(lines) + "\n"
+    res = vlib.run_tlc(scr, "MC_led", cfgtext("ViewLed", False, True), workers=8, timeout=1500)
+    if not res.completed:
+        raise Infra("MC_led failed:\n" + res.tail(40))
+    out.add_mc("MC_led %s" % consts, res)
+    dump = scr.fresh("dump") + ".out"
+    res2 = vlib.run_tlc(scr, "MC_led", cfgtext("ViewStLed", True, False), workers=8, timeout=1500, outname=dump)
+    if not res2.completed:
+        raise Infra("MC_led dump failed:\n" + res2.tail(20))
+    tg = scr.build_tool("tourgen")
+    walks = scr.fresh("walks") + ".json"
+    r = subprocess.run([tg, "-cap", "400", "-o", walks, dump], stdout=subprocess.PIPE, stderr=subprocess.PIPE, text=True)
+    os.remove(dump)
+    if r.returncode != 0:
+        raise Infra("tourgen failed: " + r.stderr)
+    with open(walks) as f:
+        d = json.load(f)
+    d["cfg"] = devcheck.fix_cfg_json(d["cfg"])
+    d["graph_states"], d["graph_transitions"] = res2.distinct, res2.generated
+    out.add_tour("MC_led", d)
+    return d
+
+
+def led_batches(cfg, walks, ngroups):
+    groups = devcheck.split_walks(walks, ngroups)
+    return [[{"cfg": cfg, "colors": LED_COLORS, "layout": LED_LAYOUTS[i % len(LED_LAYOUTS)], "walks": g}] for i, g in enumerate(groups)]
+
+
+def c17(pid, tier, replay):
+    scr = vlib.Scratch(pid)
+    out = devcheck.Outcome(pid, tier, ["C17_"])
+    scr.build()
+    if replay:
+        with open(replay) as f:
+            rp = json.load(f)
+        c = rp["cfg"]
+        steps = []
+        for e in rp["events"]:
+            if e.get("ev") == "midiin":
+                steps.append({"ev": "midiin", "msg": e["msgin"]})
+            else:
+                steps.extend(events_to_inputs([e]))
+        groups = [[{"cfg": c["cfg"], "colors": c["colors"], "layout": c["layout"], "walks": [steps]}]]
+    else:
+        d = led_jobs(scr, out, tier)
+        groups = led_batches(d["cfg"], d["walks"], 14)
+    def one(g):
+        t, _ = run_led(scr, g)
+        return t, vlib.validate_trace(scr, "LedTrace", t, xmx="3g")
+    with ThreadPoolExecutor(max_workers=14) as ex:
+        for t, r in ex.map(one, groups):
+            out.add_validation(t, r)
+    return out.finish(rule="every transition of the bounded model (key events, action taps, MIDI-input notes, disconnect) is replayed on the "
+                           "real device with its LED goroutine connected to a fake OpenRGB server; after each step the frame received two "
+                           "refresh cycles later is judged by Led!FrameJudgement; three LED layouts",
+                      assumptions=["the frame judged after a step is the last one received once two further frames have arrived (the first of "
+                                   "them may have been computed before the step)",
+                                   "/sys/class/hidraw is provided through a private mount namespace (unshare -m)",
+                                   "implementation-defined palettes (channel colours, brightness steps of the action keys) are judged for "
+                                   "consistency and distinctness, configured colours within +-2 per channel (HSV round trip)"])
+
+
+REGISTRY["C17"] = c17
